@@ -11,7 +11,7 @@
 //!   arg ok <hex> | arg err            per item of args()
 //!   var <keyhex> ok <hex>|missing|notunicode          env::var(key)   (only for UTF-8 keys)
 //!   varu <keyhex> ok <hex>|missing|notunicode         env::var_unix(key)
-//!   uid <n> / gid <n> / random <hex>|none / execfn <hex>|none
+//!   uid <n> / gid <n> / random <hex>|none / execfn <hex>|none      (or "noaux" when built without feature aux)
 //!   reloc <i> <hex>                   the strings two pointer tables (one in .data.rel.ro, one in .data)
 //!                                     point to - every table word needs a RELATIVE relocation in PIE modes
 //!   clock mono|real <s> <ns> <s> <ns> <s> <ns>        syscall, tiny-std (vDSO when found), syscall
@@ -178,22 +178,27 @@ pub fn main() -> i32 {
         }
         putb(b'\n');
     }
-    // ---- aux values
-    puts("uid ");
-    putu(u64::from(tiny_std::elf::aux::get_uid()));
-    puts("\ngid ");
-    putu(u64::from(tiny_std::elf::aux::get_gid()));
-    puts("\nrandom ");
-    match tiny_std::elf::aux::get_random() {
-        Some(r) => puthex(&r.to_ne_bytes()),
-        None => puts("none"),
+    // ---- aux values (tiny-std feature "aux" only)
+    #[cfg(feature = "aux")]
+    {
+        puts("uid ");
+        putu(u64::from(tiny_std::elf::aux::get_uid()));
+        puts("\ngid ");
+        putu(u64::from(tiny_std::elf::aux::get_gid()));
+        puts("\nrandom ");
+        match tiny_std::elf::aux::get_random() {
+            Some(r) => puthex(&r.to_ne_bytes()),
+            None => puts("none"),
+        }
+        puts("\nexecfn ");
+        match tiny_std::elf::aux::get_exec_fn() {
+            Some(f) => puthex(content(f)),
+            None => puts("none"),
+        }
+        putb(b'\n');
     }
-    puts("\nexecfn ");
-    match tiny_std::elf::aux::get_exec_fn() {
-        Some(f) => puthex(content(f)),
-        None => puts("none"),
-    }
-    putb(b'\n');
+    #[cfg(not(feature = "aux"))]
+    puts("noaux\n");
     // ---- relocated pointer tables
     for i in 0..20usize {
         let s: &[u8] = unsafe {
